@@ -687,7 +687,16 @@ def rule_part(run):
     from .laytops import laytops_rule
     laytops_rule(run, lt)
     th = prog.func('mulgrids.layer.get_thickness')
-    check_return(run, 'layer.thickness :: top - bottom', th, 'self.top - self.bottom', 'thickness is not top - bottom')
+    cen_ = [x for x in ast.walk(th.node) if isinstance(x, ast.Attribute) and x.attr == 'centre']
+    if cen_:
+        # the layer record stores bottom and centre independently (a centre need not be at mid-height); only top and bottom
+        # tile the column, so a thickness that reads the centre does not sum to the model height
+        run.violated('layer.thickness :: top - bottom', 'the thickness is computed from the layer centre (`%s`): centre and bottom are independent '
+                     'fields of the layer record, and refine_layers() lays the new stack out from these thicknesses, so the model bottom '
+                     'moves and volume is not conserved for a layer whose centre is off mid-height'
+                     % norm([r for r in ast.walk(th.node) if isinstance(r, ast.Return)][0].value), where=th.where(cen_[0]))
+    else:
+        check_return(run, 'layer.thickness :: top - bottom', th, 'self.top - self.bottom', 'thickness is not top - bottom')
 
 
 def _affine(e, var, modnames):
